@@ -72,6 +72,22 @@ def build(R):
                          'done': 'bool'})
     R.shape('QuestionHistory', {}, bases=[])
     R.stubs[I + ':get_ip_address_object_from_record'] = stub(_get_ip)
+    # the address-object helpers behind that abstraction: total (a malformed / short address yields None, never an exception)
+    U = 'zeroconf._utils.ipaddress'
+    R.shape('IPAddr', {'is_link_local': 'bool'})
+
+    def _cached_ip(ex, args, kwargs, st, frame, node):
+        o = fresh('ipobj', Ref)
+        st.assume(z3.Or(o == NONE, ex.ctx.shapes.exact_class_term(o, 'IPAddr')))
+        ex.ctx.assumed.add('cached_ip_addresses_wrapper(x) returns an address object or None and raises nothing (lru_cache over two '
+                           'try/except (AddressValueError, NetmaskValueError) constructor calls)')
+        yield st, RefV(o, ref('IPAddr'), True)
+    R.stubs[U + ':cached_ip_addresses_wrapper'] = stub(_cached_ip)
+    R.stubs[U + ':IPADDRESS_SUPPORTS_SCOPE_ID'] = lambda ex, st, frame: Sc(fresh('supports_scope', z3.BoolSort()), BOOL)
+    R.contract(U, 'ip_bytes_and_scope_to_address', PROP, params={'address': 'bytes', 'scope': 'int'}, returns='opt[IPAddr]',
+               requires=[], modifies=[], raises={}, ensures=[])
+    R.contract(U, 'get_ip_address_object_from_record', PROP, params={'record': 'DNSAddress'}, returns='opt[IPAddr]',
+               requires=['record is not None'], modifies=[], raises={}, ensures=[])
     R.stubs[I + ':QU_QUESTION'] = lambda ex, st, frame: PyConst(QU)
     R.stubs[I + ':QM_QUESTION'] = lambda ex, st, frame: PyConst(QM)
     R.stubs['method:Zeroconf.async_add_listener'] = _listen(True)
@@ -136,6 +152,18 @@ def build(R):
                    '   forall("a:IPAddr", lambda a: implies(old(holds(self, a)), holds(self, a))))' % IS_SRV,
                ])
 
+    # the listener entry point the record manager calls for every batch of cache changes: a loop over the batch
+    R.shape('RecordUpdate', {'new': 'DNSRecord', 'old': 'opt[DNSRecord]'})
+    R.shape('ServiceInfo', {'_new_records_futures': 'opt[set[object]]'})
+    R.contract('zeroconf._utils.asyncio', '_resolve_all_futures_to_none', 'C17', params={'futures': 'set[object]'}, trusted=True,
+               modifies=['futures'], raises={}, note='C17 (future helpers verified there): sets each pending future and clears the set; raises nothing')
+    PMOD0 = ['self._name', 'self.key', 'self.server', 'self.server_key', 'self.port', 'self.weight', 'self.priority', 'self.text',
+             'self._ipv4_addresses', 'self._ipv6_addresses', 'ServiceInfo._properties[*]', 'ServiceInfo._decoded_properties[*]']
+    R.contract(I, 'ServiceInfo.async_update_records', PROP, params={'zc': 'Zeroconf', 'now': 'real', 'records': 'list[RecordUpdate]'},
+               requires=['zc is not None and zc.cache is not None and wf_cache(zc.cache)',
+                         'forall("j:int", lambda j: implies(0 <= j and j < len(records), records[j] is not None and records[j].new is not None))'],
+               modifies=PMOD0 + ['self._new_records_futures'], raises={}, ensures=[],
+               loops={0: Loop(inv=['wf_cache(zc.cache)'], modifies=PMOD0)})
     # ---- completeness and the cache load -----------------------------------------------------------------------------------------
     PMOD = ['self._name', 'self.key', 'self.server', 'self.server_key', 'self.port', 'self.weight', 'self.priority', 'self.text',
             'self._ipv4_addresses', 'self._ipv6_addresses', 'ServiceInfo._properties[*]', 'ServiceInfo._decoded_properties[*]']
@@ -319,8 +347,27 @@ def configure(ctx, R):
         rec = g.rng.choice(recs) if recs and g.rng.random() < 0.8 else g.record()
         return {'self': info, 'zc': zc, 'record': rec, 'now': now}
     R.generators[(I, 'ServiceInfo._process_record_threadsafe')] = g_proc
+    def g_upd(g):
+        from zeroconf._updates import RecordUpdate
+        info, zc, now, recs = mk_lookup(g)
+        pick = [RecordUpdate(r, None) for r in recs if g.rng.random() < 0.7]
+        if g.rng.random() < 0.3:
+            info._new_records_futures = set()
+        return {'self': info, 'zc': zc, 'now': now, 'records': pick}
+    R.generators[(I, 'ServiceInfo.async_update_records')] = g_upd
     R.generators[(I, 'ServiceInfo._get_ip_addresses_from_cache_lifo')] = lambda g: (lambda t: {
         'self': t[0], 'zc': t[1], 'now': t[2], 'type': g.rng.choice([1, 28])})(mk_lookup(g))
+
+    ADDRS = [b'\x0a\x00\x00\x01', b'\xa9\xfe\x01\x02', b'\xfe\x80' + b'\x00' * 13 + b'\x01', b'\x20\x01' + b'\x00' * 13 + b'\x01',
+             b'', b'\x01\x02', b'\xfe\x80\x00\x00\x00\x00\x00', b'\x00' * 17]
+    U = 'zeroconf._utils.ipaddress'
+    R.generators[(U, 'ip_bytes_and_scope_to_address')] = lambda g: {'address': g.rng.choice(ADDRS), 'scope': g.rng.choice([0, 1, 3, 12])}
+
+    def g_rec(g):
+        from zeroconf._dns import DNSAddress
+        a = g.rng.choice(ADDRS)
+        return {'record': DNSAddress('h1.local.', g.rng.choice([1, 28]), 1, 120, a, scope_id=g.rng.choice([None, 0, 1, 3]))}
+    R.generators[(U, 'get_ip_address_object_from_record')] = g_rec
 
 
 NO_CONCRETE = {'ServiceInfo._add_question_with_known_answers', 'ServiceInfo._generate_request_query', 'ServiceInfo.async_request'}
